@@ -1,8 +1,24 @@
-// polygon: re-reads /repo/polygon.go with go/ast and emits coq/gen/GenPolygon.v:
+// polygon: re-reads /repo's package osm with go/ast and emits coq/gen/GenPolygon.v:
+//
 //   - the three condition constants (conditionAll / conditionWhitelist / conditionBlacklist),
-//   - the rule table exactly as written in the polygonJSON literal (source order, values in
-//     source order, i.e. BEFORE init() sorts them), decoded through the json tags of the
-//     polyCondition struct.
+//   - the rule table exactly as written in the source (source order, values in source order,
+//     i.e. BEFORE init() sorts them).  Three ways of writing the table are understood, tried
+//     in this order (poly_table_source says which one was used):
+//     1. "json-literal": the variable handed to json.Unmarshal(X, &polyConditions) (default name
+//     polygonJSON) is initialised with a string literal, possibly through conversions
+//     such as []byte("...") or through another package-level string constant/variable;
+//     2. "json-embed":   that variable carries a //go:embed directive: the file is read;
+//     3. "go-literal":   polyConditions itself is initialised with a composite literal
+//     []polyCondition{{Key: ..., Condition: ..., Values: []string{...}}, ...}.
+//     JSON is decoded through the json tags of the polyCondition struct, the way encoding/json
+//     fills []polyCondition.  Anything else is a translator failure (= broken obligation).
+//   - the literals inside Way.Polygon and Relation.Polygon: string literals (and
+//     package-level string constants/variables referred to) of the body itself, those of the
+//     same-package functions/methods it calls (by name, transitively), and the minimum number of
+//     node refs implied by the length test (len(..) <= N  or  len(..) < N, also through a local
+//     n := len(..)).  When a function is not found or the length test has another shape the
+//     corresponding definition says so (found = false / None) and GenOk has nothing to check:
+//     the behaviour is then tied by correspondence only.
 //
 // Nothing is executed: the run-time table (after init) is dumped by the harness through the
 // verif hook and compared in Coq with [init_table] applied to this table (C18/Check.v).
@@ -19,6 +35,7 @@ import (
 	"os"
 	"path/filepath"
 	"reflect"
+	"sort"
 	"strconv"
 	"strings"
 
@@ -30,9 +47,27 @@ func fail(format string, a ...interface{}) {
 	os.Exit(1)
 }
 
-// stringLit returns the value of a string literal, looking through conversions such as
-// []byte("...") or conditionType("...").
-func stringLit(e ast.Expr) (string, bool) {
+type rule struct {
+	key, cond string
+	values    []string
+}
+
+type world struct {
+	fset    *token.FileSet
+	files   map[string]*ast.File
+	vars    map[string]string // package-level string-valued vars/consts (resolved)
+	varExpr map[string]ast.Expr
+	varPos  map[string]string
+	embed   map[string]string // var name -> embedded file name
+	funcs   map[string][]*ast.FuncDecl
+}
+
+// str evaluates e as a string: a literal, a conversion of one, a parenthesised one, a
+// concatenation, or a package-level string constant/variable.
+func (w *world) str(e ast.Expr, depth int) (string, bool) {
+	if depth > 8 {
+		return "", false
+	}
 	switch x := e.(type) {
 	case *ast.BasicLit:
 		if x.Kind != token.STRING {
@@ -41,13 +76,224 @@ func stringLit(e ast.Expr) (string, bool) {
 		s, err := strconv.Unquote(x.Value)
 		return s, err == nil
 	case *ast.ParenExpr:
-		return stringLit(x.X)
-	case *ast.CallExpr:
+		return w.str(x.X, depth+1)
+	case *ast.CallExpr: // conversion: []byte("..."), conditionType("..."), string(x)
 		if len(x.Args) == 1 {
-			return stringLit(x.Args[0])
+			switch x.Fun.(type) {
+			case *ast.ArrayType, *ast.Ident:
+				return w.str(x.Args[0], depth+1)
+			}
+		}
+	case *ast.BinaryExpr:
+		if x.Op == token.ADD {
+			a, ok1 := w.str(x.X, depth+1)
+			b, ok2 := w.str(x.Y, depth+1)
+			return a + b, ok1 && ok2
+		}
+	case *ast.Ident:
+		if v, ok := w.vars[x.Name]; ok {
+			return v, true
+		}
+		if ex, ok := w.varExpr[x.Name]; ok {
+			return w.str(ex, depth+1)
 		}
 	}
 	return "", false
+}
+
+func recvName(fd *ast.FuncDecl) string {
+	if fd.Recv == nil || len(fd.Recv.List) != 1 {
+		return ""
+	}
+	return tr.RecvName(fd.Recv.List[0].Type)
+}
+
+func (w *world) findMethod(recv, name string) *ast.FuncDecl {
+	for _, fd := range w.funcs[name] {
+		if recvName(fd) == recv {
+			return fd
+		}
+	}
+	return nil
+}
+
+type lits struct {
+	found   bool
+	direct  []string
+	callee  []string
+	minSome bool
+	min     int64
+}
+
+func addUnique(l []string, s string) []string {
+	for _, x := range l {
+		if x == s {
+			return l
+		}
+	}
+	return append(l, s)
+}
+
+// collect gathers the string literals of fd's body (direct) and of everything it calls in the
+// package (callee).
+func (w *world) collect(fd *ast.FuncDecl) lits {
+	out := lits{found: true}
+	visited := map[*ast.FuncDecl]bool{fd: true}
+	var walk func(body ast.Node, direct bool)
+	walk = func(body ast.Node, direct bool) {
+		ast.Inspect(body, func(n ast.Node) bool {
+			switch x := n.(type) {
+			case *ast.BasicLit:
+				if x.Kind == token.STRING {
+					if s, err := strconv.Unquote(x.Value); err == nil {
+						if direct {
+							out.direct = addUnique(out.direct, s)
+						} else {
+							out.callee = addUnique(out.callee, s)
+						}
+					}
+				}
+			case *ast.Ident:
+				if _, isPkg := w.varExpr[x.Name]; isPkg && isPkgLevel(w, x) {
+					if s, ok := w.str(x, 0); ok {
+						if direct {
+							out.direct = addUnique(out.direct, s)
+						} else {
+							out.callee = addUnique(out.callee, s)
+						}
+					}
+				}
+			case *ast.CallExpr:
+				name := ""
+				switch f := x.Fun.(type) {
+				case *ast.Ident:
+					name = f.Name
+				case *ast.SelectorExpr:
+					name = f.Sel.Name
+				}
+				for _, cd := range w.funcs[name] {
+					if !visited[cd] && cd.Body != nil {
+						visited[cd] = true
+						walk(cd.Body, false)
+					}
+				}
+			}
+			return true
+		})
+	}
+	if fd.Body != nil {
+		walk(fd.Body, true)
+		out.minSome, out.min = w.minNodes(fd.Body)
+	}
+	return out
+}
+
+// isPkgLevel: the identifier resolves to a package-level declaration (not shadowed locally).
+func isPkgLevel(w *world, id *ast.Ident) bool {
+	if id.Obj == nil {
+		return true // resolved in another file of the package
+	}
+	vs, ok := id.Obj.Decl.(*ast.ValueSpec)
+	if !ok {
+		return false
+	}
+	for _, f := range w.files {
+		for _, d := range f.Decls {
+			if gd, ok := d.(*ast.GenDecl); ok {
+				for _, sp := range gd.Specs {
+					if sp == ast.Spec(vs) {
+						return true
+					}
+				}
+			}
+		}
+	}
+	return false
+}
+
+// minNodes recognises  len(X) <= N  /  len(X) < N  (or the mirrored  N >= len(X) / N > len(X)),
+// where len(X) may be held in a local variable assigned from len(..); it must be the condition of
+// an if statement.  Returns the smallest length that passes the test.
+func (w *world) minNodes(body *ast.BlockStmt) (bool, int64) {
+	lenVars := map[string]bool{}
+	isLen := func(e ast.Expr) bool {
+		switch x := e.(type) {
+		case *ast.CallExpr:
+			if id, ok := x.Fun.(*ast.Ident); ok && id.Name == "len" && len(x.Args) == 1 {
+				return strings.Contains(exprString(x.Args[0]), "Nodes")
+			}
+		case *ast.Ident:
+			return lenVars[x.Name]
+		}
+		return false
+	}
+	intLit := func(e ast.Expr) (int64, bool) {
+		if b, ok := e.(*ast.BasicLit); ok && b.Kind == token.INT {
+			v, err := strconv.ParseInt(b.Value, 0, 64)
+			return v, err == nil
+		}
+		return 0, false
+	}
+	found, min := false, int64(0)
+	n := 0
+	ast.Inspect(body, func(nd ast.Node) bool {
+		switch x := nd.(type) {
+		case *ast.AssignStmt:
+			if len(x.Lhs) == 1 && len(x.Rhs) == 1 {
+				if id, ok := x.Lhs[0].(*ast.Ident); ok && isLen(x.Rhs[0]) {
+					lenVars[id.Name] = true
+				}
+			}
+		case *ast.IfStmt:
+			be, ok := x.Cond.(*ast.BinaryExpr)
+			if !ok {
+				return true
+			}
+			l, r, op := be.X, be.Y, be.Op
+			if v, ok := intLit(l); ok && isLen(r) { // mirror
+				switch op {
+				case token.GEQ:
+					n, found, min = n+1, true, v+1
+				case token.GTR:
+					n, found, min = n+1, true, v
+				}
+			} else if v, ok := intLit(r); ok && isLen(l) {
+				switch op {
+				case token.LEQ:
+					n, found, min = n+1, true, v+1
+				case token.LSS:
+					n, found, min = n+1, true, v
+				}
+			}
+		}
+		return true
+	})
+	if n != 1 {
+		return false, 0
+	}
+	return found, min
+}
+
+func exprString(e ast.Expr) string {
+	switch x := e.(type) {
+	case *ast.Ident:
+		return x.Name
+	case *ast.SelectorExpr:
+		return exprString(x.X) + "." + x.Sel.Name
+	case *ast.StarExpr:
+		return "*" + exprString(x.X)
+	case *ast.ParenExpr:
+		return exprString(x.X)
+	}
+	return "?"
+}
+
+func coqStrings(l []string) string {
+	var vs []string
+	for _, v := range l {
+		vs = append(vs, tr.CoqString(v))
+	}
+	return "[" + strings.Join(vs, "; ") + "]"
 }
 
 func main() {
@@ -59,7 +305,7 @@ func main() {
 	pkgs, err := parser.ParseDir(fset, repo, func(fi os.FileInfo) bool {
 		n := fi.Name()
 		return !strings.HasSuffix(n, "_test.go") && !strings.HasPrefix(n, "verif_")
-	}, 0)
+	}, parser.ParseComments)
 	if err != nil {
 		fail("%v", err)
 	}
@@ -67,14 +313,24 @@ func main() {
 	if !ok {
 		fail("package osm not found in %s", repo)
 	}
+	w := &world{fset: fset, files: pkg.Files, vars: map[string]string{}, varExpr: map[string]ast.Expr{}, varPos: map[string]string{},
+		embed: map[string]string{}, funcs: map[string][]*ast.FuncDecl{}}
 
-	vars := map[string]string{}      // package-level string-valued vars/consts
-	varPos := map[string]string{}    // where
 	jsonName := map[string]string{}  // polyCondition field -> json key
 	fieldType := map[string]string{} // polyCondition field -> printed type
 	haveStruct := false
-	for fname, f := range pkg.Files {
+	var fnames []string
+	for fname := range pkg.Files {
+		fnames = append(fnames, fname)
+	}
+	sort.Strings(fnames)
+	for _, fname := range fnames {
+		f := pkg.Files[fname]
 		for _, d := range f.Decls {
+			if fd, ok := d.(*ast.FuncDecl); ok {
+				w.funcs[fd.Name.Name] = append(w.funcs[fd.Name.Name], fd)
+				continue
+			}
 			gd, ok := d.(*ast.GenDecl)
 			if !ok {
 				continue
@@ -82,12 +338,20 @@ func main() {
 			for _, sp := range gd.Specs {
 				switch s := sp.(type) {
 				case *ast.ValueSpec:
-					for i, n := range s.Names {
-						if i < len(s.Values) {
-							if v, ok := stringLit(s.Values[i]); ok {
-								vars[n.Name] = v
-								varPos[n.Name] = fmt.Sprintf("%s:%d", filepath.Base(fname), fset.Position(n.Pos()).Line)
+					for _, doc := range []*ast.CommentGroup{gd.Doc, s.Doc} {
+						if doc == nil {
+							continue
+						}
+						for _, c := range doc.List {
+							if strings.HasPrefix(c.Text, "//go:embed ") && len(s.Names) == 1 {
+								w.embed[s.Names[0].Name] = strings.TrimSpace(strings.TrimPrefix(c.Text, "//go:embed "))
 							}
+						}
+					}
+					for i, n := range s.Names {
+						w.varPos[n.Name] = fmt.Sprintf("%s:%d", filepath.Base(fname), fset.Position(n.Pos()).Line)
+						if i < len(s.Values) {
+							w.varExpr[n.Name] = s.Values[i]
 						}
 					}
 				case *ast.TypeSpec:
@@ -127,6 +391,11 @@ func main() {
 			}
 		}
 	}
+	for n, e := range w.varExpr {
+		if v, ok := w.str(e, 0); ok {
+			w.vars[n] = v
+		}
+	}
 	if !haveStruct {
 		fail("type polyCondition not found")
 	}
@@ -138,77 +407,178 @@ func main() {
 	if fieldType["Values"] != "[]string" {
 		fail("polyCondition.Values has type %q, expected []string", fieldType["Values"])
 	}
-	for _, v := range []string{"polygonJSON", "conditionAll", "conditionWhitelist", "conditionBlacklist"} {
-		if _, ok := vars[v]; !ok {
+	for _, v := range []string{"conditionAll", "conditionWhitelist", "conditionBlacklist"} {
+		if _, ok := w.vars[v]; !ok {
 			fail("package-level string %s not found", v)
 		}
 	}
 
-	// decode the JSON literal the way encoding/json fills []polyCondition:
-	// keys matched exactly, else case-insensitively; last duplicate wins; unknown keys ignored.
-	var raw []map[string]json.RawMessage
-	if err := json.Unmarshal([]byte(vars["polygonJSON"]), &raw); err != nil {
-		fail("polygonJSON is not a JSON array of objects: %v", err)
-	}
-	get := func(o map[string]json.RawMessage, name string) (json.RawMessage, bool) {
-		if v, ok := o[name]; ok {
-			return v, true
+	// which variable is unmarshalled into polyConditions?
+	jsonVar := "polygonJSON"
+	for _, fds := range w.funcs {
+		for _, fd := range fds {
+			if fd.Body == nil {
+				continue
+			}
+			ast.Inspect(fd.Body, func(n ast.Node) bool {
+				ce, ok := n.(*ast.CallExpr)
+				if !ok || len(ce.Args) != 2 {
+					return true
+				}
+				if se, ok := ce.Fun.(*ast.SelectorExpr); !ok || se.Sel.Name != "Unmarshal" {
+					return true
+				}
+				if ue, ok := ce.Args[1].(*ast.UnaryExpr); ok && ue.Op == token.AND && exprString(ue.X) == "polyConditions" {
+					if id, ok := ce.Args[0].(*ast.Ident); ok {
+						jsonVar = id.Name
+					}
+				}
+				return true
+			})
 		}
-		for k, v := range o {
-			if strings.EqualFold(k, name) {
+	}
+
+	var rules []rule
+	source := ""
+	decodeJSON := func(text []byte) {
+		// the way encoding/json fills []polyCondition: keys matched exactly, else
+		// case-insensitively; last duplicate wins; unknown keys ignored.
+		var raw []map[string]json.RawMessage
+		if err := json.Unmarshal(text, &raw); err != nil {
+			fail("%s is not a JSON array of objects: %v", jsonVar, err)
+		}
+		get := func(o map[string]json.RawMessage, name string) (json.RawMessage, bool) {
+			if v, ok := o[name]; ok {
 				return v, true
 			}
+			var ks []string
+			for k := range o {
+				ks = append(ks, k)
+			}
+			sort.Strings(ks)
+			for _, k := range ks {
+				if strings.EqualFold(k, name) {
+					return o[k], true
+				}
+			}
+			return nil, false
 		}
-		return nil, false
+		for i, o := range raw {
+			var r rule
+			if v, ok := get(o, jsonName["Key"]); ok {
+				if err := json.Unmarshal(v, &r.key); err != nil {
+					fail("rule %d: key: %v", i, err)
+				}
+			}
+			if v, ok := get(o, jsonName["Condition"]); ok {
+				if err := json.Unmarshal(v, &r.cond); err != nil {
+					fail("rule %d: condition: %v", i, err)
+				}
+			}
+			if v, ok := get(o, jsonName["Values"]); ok {
+				if err := json.Unmarshal(v, &r.values); err != nil {
+					fail("rule %d: values: %v", i, err)
+				}
+			}
+			rules = append(rules, r)
+		}
 	}
-	type rule struct {
-		key, cond string
-		values    []string
+	if text, ok := w.vars[jsonVar]; ok {
+		source = "json-literal"
+		decodeJSON([]byte(text))
+	} else if fn, ok := w.embed[jsonVar]; ok {
+		source = "json-embed"
+		text, err := os.ReadFile(filepath.Join(repo, fn))
+		if err != nil {
+			fail("embedded table %s: %v", fn, err)
+		}
+		decodeJSON(text)
+	} else if cl, ok := w.varExpr["polyConditions"].(*ast.CompositeLit); ok {
+		source = "go-literal"
+		for i, el := range cl.Elts {
+			rc, ok := el.(*ast.CompositeLit)
+			if !ok {
+				fail("polyConditions element %d is not a composite literal", i)
+			}
+			var r rule
+			for j, fe := range rc.Elts {
+				kv, ok := fe.(*ast.KeyValueExpr)
+				if !ok {
+					fail("polyConditions element %d field %d: positional fields are not supported", i, j)
+				}
+				switch exprString(kv.Key) {
+				case "Key":
+					if r.key, ok = w.str(kv.Value, 0); !ok {
+						fail("polyConditions element %d: Key is not a string constant", i)
+					}
+				case "Condition":
+					if r.cond, ok = w.str(kv.Value, 0); !ok {
+						fail("polyConditions element %d: Condition is not a string constant", i)
+					}
+				case "Values":
+					vl, ok := kv.Value.(*ast.CompositeLit)
+					if !ok {
+						fail("polyConditions element %d: Values is not a slice literal", i)
+					}
+					for _, ve := range vl.Elts {
+						s, ok := w.str(ve, 0)
+						if !ok {
+							fail("polyConditions element %d: a value is not a string constant", i)
+						}
+						r.values = append(r.values, s)
+					}
+				default:
+					fail("polyConditions element %d: unknown field %s", i, exprString(kv.Key))
+				}
+			}
+			rules = append(rules, r)
+		}
+	} else {
+		fail("the rule table was not found: %s is neither a string literal nor //go:embed, and polyConditions is not a composite literal", jsonVar)
 	}
-	var rules []rule
-	for i, o := range raw {
-		var r rule
-		if v, ok := get(o, jsonName["Key"]); ok {
-			if err := json.Unmarshal(v, &r.key); err != nil {
-				fail("rule %d: key: %v", i, err)
-			}
-		}
-		if v, ok := get(o, jsonName["Condition"]); ok {
-			if err := json.Unmarshal(v, &r.cond); err != nil {
-				fail("rule %d: condition: %v", i, err)
-			}
-		}
-		if v, ok := get(o, jsonName["Values"]); ok {
-			if err := json.Unmarshal(v, &r.values); err != nil {
-				fail("rule %d: values: %v", i, err)
-			}
-		}
-		rules = append(rules, r)
+
+	// literals of the two Polygon methods
+	var wl, rl lits
+	if fd := w.findMethod("Way", "Polygon"); fd != nil {
+		wl = w.collect(fd)
+	}
+	if fd := w.findMethod("Relation", "Polygon"); fd != nil {
+		rl = w.collect(fd)
 	}
 
 	var b bytes.Buffer
-	fmt.Fprintf(&b, "(* GENERATED by /verif/translator/cmd/polygon from /repo/polygon.go — do not edit.\n")
-	fmt.Fprintf(&b, "   polygonJSON at %s, decoded through the json tags of polyCondition\n", varPos["polygonJSON"])
+	fmt.Fprintf(&b, "(* GENERATED by /verif/translator/cmd/polygon from /repo (package osm) — do not edit.\n")
+	fmt.Fprintf(&b, "   rule table: route %s, variable %s at %s, decoded through the json tags of polyCondition\n", source, jsonVar, w.varPos[jsonVar])
 	fmt.Fprintf(&b, "   (Key=%q Condition=%q Values=%q); values are in SOURCE order (before init sorts them). *)\n",
 		jsonName["Key"], jsonName["Condition"], jsonName["Values"])
-	b.WriteString("From Coq Require Import String List.\nImport ListNotations.\nOpen Scope string_scope.\n\n")
-	fmt.Fprintf(&b, "Definition cond_all : string := %s.\n", tr.CoqString(vars["conditionAll"]))
-	fmt.Fprintf(&b, "Definition cond_whitelist : string := %s.\n", tr.CoqString(vars["conditionWhitelist"]))
-	fmt.Fprintf(&b, "Definition cond_blacklist : string := %s.\n\n", tr.CoqString(vars["conditionBlacklist"]))
+	b.WriteString("From Coq Require Import String List ZArith.\nImport ListNotations.\nOpen Scope string_scope.\n\n")
+	fmt.Fprintf(&b, "Definition poly_table_source : string := %s.\n\n", tr.CoqString(source))
+	fmt.Fprintf(&b, "Definition cond_all : string := %s.\n", tr.CoqString(w.vars["conditionAll"]))
+	fmt.Fprintf(&b, "Definition cond_whitelist : string := %s.\n", tr.CoqString(w.vars["conditionWhitelist"]))
+	fmt.Fprintf(&b, "Definition cond_blacklist : string := %s.\n\n", tr.CoqString(w.vars["conditionBlacklist"]))
 	b.WriteString("(* (key, condition, values) *)\n")
 	b.WriteString("Definition poly_json_rules : list (string * string * list string) := [\n")
 	for i, r := range rules {
-		var vs []string
-		for _, v := range r.values {
-			vs = append(vs, tr.CoqString(v))
-		}
 		sep := ";"
 		if i == len(rules)-1 {
 			sep = ""
 		}
-		fmt.Fprintf(&b, "  (%s, %s, [%s])%s\n", tr.CoqString(r.key), tr.CoqString(r.cond), strings.Join(vs, "; "), sep)
+		fmt.Fprintf(&b, "  (%s, %s, %s)%s\n", tr.CoqString(r.key), tr.CoqString(r.cond), coqStrings(r.values), sep)
 	}
-	b.WriteString("].\n")
+	b.WriteString("].\n\n")
+	emitLits := func(prefix, what string, l lits) {
+		fmt.Fprintf(&b, "(* literals of %s: found = the method exists; strings of its own body; strings of the\n   package functions it calls; smallest number of node refs that passes its length test *)\n", what)
+		fmt.Fprintf(&b, "Definition %s_found : bool := %v.\n", prefix, l.found)
+		fmt.Fprintf(&b, "Definition %s_strings : list string := %s.\n", prefix, coqStrings(l.direct))
+		fmt.Fprintf(&b, "Definition %s_callee_strings : list string := %s.\n", prefix, coqStrings(l.callee))
+		if l.minSome {
+			fmt.Fprintf(&b, "Definition %s_min_nodes : option Z := Some %d%%Z.\n\n", prefix, l.min)
+		} else {
+			fmt.Fprintf(&b, "Definition %s_min_nodes : option Z := None.\n\n", prefix)
+		}
+	}
+	emitLits("lit_way", "Way.Polygon", wl)
+	emitLits("lit_rel", "Relation.Polygon", rl)
 	if err := tr.Emit(filepath.Join(out, "GenPolygon.v"), b.Bytes()); err != nil {
 		fail("%v", err)
 	}
